@@ -157,3 +157,6 @@ func vManyComponents(nExtra int) {
 	vcheck("has-late-component", u.Has(e1, extra[nExtra-1]) && !u.Has(e0, extra[nExtra-1]))
 	vreach("end")
 }
+
+// exactly 64 component types: the limit of the tiny build and a full first mask word of the default one
+func VerifC20_SixtyFourComponents() { vManyComponents(62) }
